@@ -96,7 +96,12 @@ def run(tier, seed):
                               given=given_tensors(cfg),
                               opts=dict(grid=grid, points=(mode == 'real'),
                                         rtol=1e-12 if cfg['dtype'] == 'float64' else 2e-5), **vis)
-    for mode, cfg in core_configs():
+    cores = core_configs()
+    if tier == 'thorough':
+        # depth 3 over the 55-letter G8 alphabet costs ~45 CPU-minutes per configuration: four of them (the full
+        # eight took 2.7 h on 6 workers); the others get depth 3 over the 21-letter alphabet
+        cores = cores[:2] + cores[6:]
+    for mode, cfg in cores:
         if tier == 'quick':
             grid = bmm.G4 if cfg['tol'] == 0 else bmm.G5
             ops = bmm.grid_ops(grid, zero=False)
